@@ -421,6 +421,55 @@ inline Alphabet makeAlphabet(bool thorough) {
     A.add(jsonVal("{\"b\":2,\"a\":1}", r));
   }
 
+  // objects whose keys contain NUL, are empty, or are prefixes of one another (copied keys, and through the JSON parser)
+  {
+    auto skey = [&](const std::string& name, std::vector<std::pair<std::string, Val>> members) {
+      Ref r;
+      r.kind = KObj;
+      for (auto& m : members) r.members.push_back({m.first, m.second.ref});
+      A.add(mk("obj", name,
+               [members](JsonVariant v) {
+                 JsonObject o = v.to<JsonObject>();
+                 for (auto& m : members) {
+                   JsonVariant e = o[m.first].to<JsonVariant>();
+                   m.second.build(e);
+                 }
+               },
+               r));
+    };
+    skey("{a\\0b:1}", {{std::string("a\0b", 3), i1}});
+    skey("{a\\0c:1}", {{std::string("a\0c", 3), i1}});
+    skey("{a\\0:1}", {{std::string("a\0", 2), i1}});
+    skey("{'':1}", {{std::string(), i1}});
+    skey("{ab:1}", {{"ab", i1}});
+    skey("{a:1,ab:2}", {{"a", i1}, {"ab", i2}});
+    skey("{ab:2,a:1}", {{"ab", i2}, {"a", i1}});
+    Ref r;
+    r.kind = KObj;
+    r.members = {{std::string("a\0b", 3), refInt(1)}};
+    A.add(jsonVal("{\"a\\u0000b\":1}", r));
+  }
+  // deep containers: equality is decided level by level, whatever the depth (around the default nesting limit)
+  {
+    auto chainVal = [&](int depth, int style, Val leaf, const std::string& name) {
+      Val cur = leaf;
+      for (int d = depth; d >= 1; d--) {
+        bool arr = style == 0 || (style == 2 && (d & 1));
+        cur = arr ? arrVal("", {cur}) : objVal("", {{"a", cur}}, 1);
+      }
+      cur.name = "deep:" + name;
+      cur.storage = "deep";
+      return cur;
+    };
+    const int Lm = ARDUINOJSON_DEFAULT_NESTING_LIMIT;
+    for (int d : {Lm - 1, Lm, Lm + 1, Lm + 2}) {
+      A.add(chainVal(d, 0, i1, "arr^" + std::to_string(d) + "(1)"));
+      A.add(chainVal(d, 0, i2, "arr^" + std::to_string(d) + "(2)"));
+    }
+    A.add(chainVal(Lm + 1, 1, i1, "obj^" + std::to_string(Lm + 1) + "(1)"));
+    A.add(chainVal(Lm + 1, 2, i1, "alt^" + std::to_string(Lm + 1) + "(1)"));
+  }
+
   if (thorough) {
     // 2-level nested containers over a reduced alphabet V'
     std::vector<std::string> leaves = {"i32:1",       "u32:1",     "dbl:1",         "flt:1.5",      "i64:-1", "u64:2p64-1", "i64:2p63-1",
@@ -816,6 +865,17 @@ inline void run(Ctx& C) {
     scalarCases(C, A, "jstr", nv.first, refBytes(KStr, str), JsonString(str.data(), str.size()), sm);
   }
   for (int i = 0; i < 7; i++) scalarCases(C, A, "jstr-linked", plainName[i], refBytes(KStr, plain[i]), JsonString(plain[i]), sm);
+  // operands that ALIAS the characters a variant holds: views of every length over the very pointers the str-linked elements
+  // of the alphabet were set from (same address, other length)
+  for (size_t i = 0; i < sizeof kLinked / sizeof kLinked[0]; i++) {
+    const char* p = kLinked[i];
+    size_t len = strlen(p);
+    for (size_t n = 0; n <= len; n++) {
+      std::string bytes(p, n), nm = std::string(kLinkedName[i]) + "[0.." + std::to_string(n) + ")";
+      scalarCases(C, A, "sview-alias", nm, refBytes(KStr, bytes), std::string_view(p, n), sm);
+      scalarCases(C, A, "jstr-alias", nm, refBytes(KStr, bytes), JsonString(p, n), sm);
+    }
+  }
   // null pointers: the library itself treats a null string as null (set() stores null, Comparer::visit(nullptr_t))
   scalarCases(C, A, "nullptr", "", Ref(), nullptr, ",null,unbound,");
   {
